@@ -159,3 +159,46 @@ lzma_crc64(const uint8_t *buf, size_t size, uint64_t crc)
 	return lzma_crc64_generic(buf, size, crc);
 #endif
 }
+
+
+#ifdef TUKAANI_PROJECT_XZ_VERIF
+// Hooks for external monitors: make each implementation that was built
+// callable on its own, whatever the runtime dispatcher picked.
+extern uint64_t lzma_verif_crc64_generic(
+		const uint8_t *buf, size_t size, uint64_t crc);
+extern uint64_t lzma_verif_crc64_arch(
+		const uint8_t *buf, size_t size, uint64_t crc);
+extern int lzma_verif_crc64_arch_supported(void);
+
+extern uint64_t
+lzma_verif_crc64_generic(const uint8_t *buf, size_t size, uint64_t crc)
+{
+#ifdef CRC64_GENERIC
+	return lzma_crc64_generic(buf, size, crc);
+#else
+	return lzma_crc64(buf, size, crc);
+#endif
+}
+
+extern uint64_t
+lzma_verif_crc64_arch(const uint8_t *buf, size_t size, uint64_t crc)
+{
+#ifdef CRC64_ARCH_OPTIMIZED
+	return crc64_arch_optimized(buf, size, crc);
+#else
+	return lzma_crc64(buf, size, crc);
+#endif
+}
+
+extern int
+lzma_verif_crc64_arch_supported(void)
+{
+#if defined(CRC64_GENERIC) && defined(CRC64_ARCH_OPTIMIZED)
+	return is_arch_extension_supported() ? 1 : 0;
+#elif defined(CRC64_ARCH_OPTIMIZED)
+	return 1;
+#else
+	return 0;
+#endif
+}
+#endif
